@@ -277,6 +277,11 @@ class Mesh(Observable):
             pairs: _types.IntArray = cKDTree(all_coords).query_pairs(
                 mergePointsTol, output_type="ndarray"
             )
+            # coincident nodes are merged across meshes only: two coincident nodes of one and
+            # the same mesh (the lips of a crack) are distinct nodes of that mesh
+            if len(pairs):
+                mesh_of = np.repeat(np.arange(len(sizes)), sizes)
+                pairs = pairs[mesh_of[pairs[:, 0]] != mesh_of[pairs[:, 1]]]
 
             if len(pairs):
                 rows = np.concatenate([pairs[:, 0], pairs[:, 1]])
